@@ -135,7 +135,7 @@ def main(chk):
     core.setup_repo_path()
     quick = chk.tier == "quick"
     labels = [0, 1, 2]
-    configs = [(1, 3), (2, 2)] if quick else [(1, 4), (2, 4)]      # (Depth, MaxLeaves): wide, deep
+    configs = [(1, 3), (2, 2)] if quick else [(1, 4), (2, 3)]      # (Depth, MaxLeaves): wide, deep
     nseps = 2 if quick else 4
     events = []
     for depth, maxleaves in configs:
@@ -144,7 +144,7 @@ def main(chk):
                "invariants": ["C18_RolloutInvertsFlatten", "C18_NoCollision"], "view": "View"}
         res = chk.model_check("MC_Rollout", cfg, name="C18_MC_Rollout_%d_%d" % (depth, maxleaves), dump=True,
                               timeout=3000)
-        keep = 1.0 if quick or depth == 1 else 0.2
+        keep = 1.0 if quick else (0.5 if depth == 1 else 0.1)
         for st in core.load_dump(res, only="todo = {}"):
             if not st["result"] or (keep < 1.0 and chk.rng.random() > keep):
                 continue
